@@ -264,6 +264,46 @@ example (E : Ext) : Storable exValidTable ∧ DimsWF exValidTable ∧ Encodable 
     subst this; decide
   · constructor <;> first | decide | (intro p hp; cases hp) | (intro h; exact absurd rfl h)
 
+/-- the name an independent reader sees for an extension: the string value of its `EXTNAME` keyword -/
+def extName (h : Hdu) : Option Str := (findCard h.cards "EXTNAME".toList).bind (c2s ·.val)
+
+/-- **An independent FITS reader recovers the same arrays** from a file in the documented layout: the generic decoder
+    (which knows nothing of photospline) finds a primary `float` image with the reversed axes holding exactly the
+    coefficient words, then one `double` image per dimension with `EXTNAME = KNOTSi` holding exactly the knot vector, then
+    — when the table has extents — a `double` image of `2·ndim` values with `EXTNAME = EXTENTS` holding the extents. -/
+theorem independent_reader_arrays (E : Ext) (t : Table) (h : Storable t) (he : Encodable E t) :
+    ∃ prim, decodeFits (Layout.layoutBytes E t)
+        = some (prim :: ((List.range t.ndim).map (knotHdu t) ++ extentsHdus t)) ∧
+      prim.axes = t.naxes.reverse ∧ prim.pix = .f32 t.coef ∧
+      (∀ i, i < t.ndim → (knotHdu t i).axes = [(t.knots.getD i []).length] ∧
+          (knotHdu t i).pix = .f64 (t.knots.getD i []) ∧
+          extName (knotHdu t i) = some ("KNOTS".toList ++ Layout.dec i)) ∧
+      (∀ e, t.extents = some e → ∃ x, extentsHdus t = [x] ∧ x.axes = [2 * t.ndim] ∧ x.pix = .f64 e ∧
+          extName x = some "EXTENTS".toList) := by
+  have hname : ∀ (axes : List Nat) (pix : Pix) (nm : Str), extName (extHdu axes pix nm) = c2s (s2c nm) := by
+    intro axes pix nm
+    show (findCard [cardStr "EXTNAME".toList nm []] "EXTNAME".toList).bind (c2s ·.val) = _
+    rw [findCard_single_hit (cardStr "EXTNAME".toList nm []) "EXTNAME".toList rfl]
+    rfl
+  refine ⟨primHdu E false t, ?_, wAxes_eq t h.naxes_len, ?_, ?_, ?_⟩
+  · rw [← encoder_meets_layout E t h he, written_bytes_decode E t he]
+    rfl
+  · show Pix.f32 (t.coef.take (prod (wAxes t))) = _
+    rw [wAxes_eq t h.naxes_len, prod_reverse, List.take_of_length_le (by rw [h.coef_len]; exact Nat.le_refl _)]
+  · intro i hi
+    refine ⟨rfl, rfl, ?_⟩
+    rw [knotHdu_eq, hname, keyN_knots_ok i (by have := h.ndim_le; omega), Layout.keyN_eq]
+  · intro e he'
+    refine ⟨extHdu [2 * t.ndim] (.f64 e) "EXTENTS".toList, ?_, rfl, rfl, ?_⟩
+    · unfold extentsHdus
+      rw [he']
+      simp only
+      rw [updateKey_createImg, List.take_of_length_le (by rw [h.extents_len e he']; exact Nat.le_refl _)]
+    · rw [hname, extents_name_ok]
+
+example : Storable exT ∧ Encodable exExt0 exT ∧ exT.extents = some [2, 2, 13, 13] :=
+  ⟨by constructor <;> decide, exT_encodable, rfl⟩
+
 /-- **Reversed axis order is the right one**: in a FITS image the first axis varies fastest; with the axes written in
     reversed order (`NAXISj = naxes[ndim-j]`, part of `Layout.primaryHeader`) the pixel with the reversed coordinates of
     a multi-index is element `Σ idx[i]·strides[i]` of the row-major coefficient array — so the array is stored in
